@@ -72,6 +72,7 @@ type Gen struct {
 	m      *Model
 	shards []uint64
 	pool   []*Series
+	script []Op // forced operations, consumed before random ones
 }
 
 func newGen(g *rand.Rand, m *Model) *Gen {
@@ -222,6 +223,11 @@ func (ge *Gen) Next(early bool) Op {
 	if early {
 		return ge.write()
 	}
+	if len(ge.script) > 0 {
+		op := ge.script[0]
+		ge.script = ge.script[1:]
+		return op
+	}
 	r := g.Intn(100)
 	switch {
 	case r < 40:
@@ -265,4 +271,46 @@ func (ge *Gen) Next(early bool) Op {
 		return Op{Kind: "tsm-compact", Shard: sh}
 	}
 	return Op{Kind: "reopen"}
+}
+
+// writeOf writes the given series into shard index si.
+func (ge *Gen) writeOf(si int, ss []*Series) Op {
+	op := Op{Kind: "write", Shard: ge.shards[si]}
+	for _, s := range ss {
+		ts := window(si) + int64(ge.g.Intn(offsets))
+		op.pts = append(op.pts, Pt{s, ts})
+		op.Points = append(op.Points, fmt.Sprintf("%s@%d", show(s.key), ts))
+	}
+	return op
+}
+
+// scriptRecreate queues the sequence "series alive in two shards, dropped from
+// one of them by a DELETE over that shard's window (they keep their series
+// ids), written to it again, more series, index compaction, reopen": the
+// tombstones and the re-creations then meet in index compactions.
+func (ge *Gen) scriptRecreate() {
+	g := ge.g
+	a := g.Intn(len(ge.shards))
+	b := (a + 1 + g.Intn(len(ge.shards)-1)) % len(ge.shards)
+	perm := g.Perm(len(ge.pool))
+	nx := 4 + g.Intn(5)
+	var xs, others []*Series
+	for i, pi := range perm {
+		if i < nx {
+			xs = append(xs, ge.pool[pi])
+		} else {
+			others = append(others, ge.pool[pi])
+		}
+	}
+	src := Source{}
+	var pred *Pred
+	ge.script = append(ge.script,
+		ge.writeOf(b, xs),
+		ge.writeOf(a, append(append([]*Series(nil), xs...), others[0])),
+		Op{Kind: "delete-window", Source: src.String(), Where: pred.String(), src: src, pred: pred, Min: window(a), Max: window(a) + windowSize - 1},
+		ge.writeOf(a, xs),
+		ge.writeOf(a, others[1:]),
+		Op{Kind: "tsi-compact"},
+		Op{Kind: "reopen"},
+	)
 }
